@@ -56,7 +56,7 @@ TOLERANCES = {
     "rigid-placement": 1e-12,
     "everything else": "exact (==, same type for values moved unchanged)",
 }
-TIMEOUT = 240
+TIMEOUT = 600
 PREIMPORT = ["holopy", "holopy.scattering", "holopy.inference"]
 
 PRIMES = [2.5, 3.25, 5.125, 7.5, 11.25, 13.125, 17.5, 19.25, 23.125, 29.5,
